@@ -245,6 +245,9 @@ def run(ctx, replay=None):
         if replay.get("case", {}).get("rawfree"):  # rewrite-free phase comparison (harness/props_ext/c02_rawfree.py)
             from harness.props_ext import c02_rawfree
             return c02_rawfree.run(ctx, replay)
+        if replay.get("case", {}).get("prm"):  # harness/props_ext/c02_perm.py
+            from harness.props_ext import c02_perm
+            return c02_perm.run(ctx, replay)
         if replay.get("case", {}).get("ovs"):  # harness/props_ext/c02_overlap.py
             from harness.props_ext import c02_overlap
             return c02_overlap.run(ctx, replay)
@@ -300,3 +303,5 @@ def run(ctx, replay=None):
     c02_overlap.run(ctx)
     from harness.props_ext import c02_coarse  # coarse slice pushdown through adjust_chunks blockwise (Props/C02Coarse.lean; crs.*)
     c02_coarse.run(ctx)
+    from harness.props_ext import c02_perm  # axis permutation rules (Props/C02Perm.lean; prm.*)
+    c02_perm.run(ctx)
